@@ -4,6 +4,7 @@ import (
 	"bytes"
 	"context"
 	"fmt"
+	"github.com/lightninglabs/lightning-node-connect/hashmailrpc"
 	"github.com/lightninglabs/lightning-node-connect/mailbox"
 	"io"
 	"math/rand"
@@ -408,6 +409,12 @@ func c05Scenarios() []*c05Scenario {
 // from the payloads sent by dropping some and repeating some in place (no reordering, nothing
 // altered or invented) - the channel the Go-Back-N theorems assume.
 func relayLayerCase(t *testing.T, r *Recorder, seed int) {
+	relayLayerCaseMode(t, r, seed, seed%3)
+}
+
+// mode 0: ServerConn sends, ServerConn receives; 1: ClientConn sends, ServerConn receives (the
+// client -> server mailbox of a session); 2: ServerConn sends, ClientConn receives.
+func relayLayerCaseMode(t *testing.T, r *Recorder, seed, mode int) {
 	rng := newRand(int64(5500 + seed))
 	nmsg := 1 + rng.Intn(7)
 	var sendScript []string // per call: its tries
@@ -455,17 +462,34 @@ func relayLayerCase(t *testing.T, r *Recorder, seed int) {
 				return RelayFault{}
 			}
 			ctx, cancel := context.WithCancel(context.Background())
-			a := mailbox.VBareServerConn(ctx, relay, x, y) // sends into mailbox y
-			b := mailbox.VBareServerConn(ctx, relay, y, x) // receives from mailbox y
+			// the server side of a session creates the mailboxes; a client only connects to them
+			relay.NewCipherBox(ctx, &hashmailrpc.CipherBoxAuth{Desc: &hashmailrpc.CipherBoxDesc{StreamId: y[:]}})
+			var send func(context.Context, []byte) error
+			var recv func(context.Context) ([]byte, error)
+			var closers []func() error
+			if mode == 1 {
+				a := mailbox.VBareClientConn(ctx, relay, x, y) // sends into mailbox y
+				send, closers = a.VSend, append(closers, a.Close)
+			} else {
+				a := mailbox.VBareServerConn(ctx, relay, x, y)
+				send, closers = a.VSendToStream, append(closers, a.Close)
+			}
+			if mode == 2 {
+				b := mailbox.VBareClientConn(ctx, relay, y, x) // receives from mailbox y
+				recv, closers = b.VRecv, append(closers, b.Close)
+			} else {
+				b := mailbox.VBareServerConn(ctx, relay, y, x)
+				recv, closers = b.VRecvFromStream, append(closers, b.Close)
+			}
 			for i := 0; i < nmsg; i++ {
-				if err := a.VSendToStream(ctx, []byte{byte(i + 1)}); err != nil {
-					bad = "sendToStream: " + err.Error()
+				if err := send(ctx, []byte{byte(i + 1)}); err != nil {
+					bad = "send function: " + err.Error()
 					break
 				}
 			}
 			for bad == "" {
 				rctx, rcancel := context.WithTimeout(ctx, 60*time.Second)
-				m, err := b.VRecvFromStream(rctx)
+				m, err := recv(rctx)
 				rcancel()
 				if err != nil || len(m) != 1 {
 					break // nothing more in the mailbox
@@ -473,12 +497,13 @@ func relayLayerCase(t *testing.T, r *Recorder, seed int) {
 				got = append(got, int(m[0]))
 			}
 			cancel()
-			a.Close()
-			b.Close()
+			for _, c := range closers {
+				c()
+			}
 			synctest.Wait()
 		})
 	}()
-	name := fmt.Sprintf("relay-layer:%s/%s", strings.Join(sendScript, ","), flatRecv)
+	name := fmt.Sprintf("relay-layer:mode=%d:%s/%s", mode, strings.Join(sendScript, ","), flatRecv)
 	r.Case(name, true, "relay-layer")
 	if bad != "" && !strings.Contains(bad, "blocked goroutines remain") {
 		r.Violate("C05/relay-layer-failed", bad, name)
